@@ -40,6 +40,9 @@ def renderOpt : Option WFN → String
   | none => "err"
   | some w => "ok " ++ renderWFN w
 
+/-- the receiver after the call, also when the call failed -/
+def renderInto (r : WFN × Bool) : String := (if r.2 then "ok " else "err ") ++ renderWFN r.1
+
 def relLetter : Rel → String
   | .invalid => "I" | .superset => ">" | .subset => "<" | .equal => "=" | .disjoint => "#"
 
@@ -82,8 +85,12 @@ def answer (ws : List String) : Option String :=
   | "binduri" :: toks => do
     -- the specification's bind_to_URI (the package has no URI binder): the Lean and the Go reading agree
     pure (hexStr (ClairModel.CpeSpec.bindURI ((← wfn? toks).map fun a => (a.kind, a.v))))
-  | "unmarshal2" :: h :: toks => do pure (renderOpt (unmarshalText (← wfn? toks) (← str? h)))
-  | "scan2" :: h :: toks => do pure (renderOpt (scanText (← wfn? toks) (← str? h)))
+  | "unmarshal2" :: h :: toks => do
+    let w0 ← wfn? toks
+    pure (renderInto (intoReceiver w0 (unmarshalText w0 (← str? h))))
+  | "scan2" :: h :: toks => do
+    let w0 ← wfn? toks
+    pure (renderInto (intoReceiver w0 (scanText w0 (← str? h))))
   | "cmp" :: toks => do
     let a ← wfn? (toks.take 11)
     let b ← wfn? (toks.drop 11)
@@ -100,13 +107,34 @@ def answer (ws : List String) : Option String :=
       | some v => toString (gate v record))
   | _ => none
 
-def stepLine (s : Unit) (l : String) : Unit × String :=
-  if l == "reset" then (s, "ok") else
-  match answer (Driver.words l) with
-  | some o => (s, o)
-  | none => (s, "bad-op")
+/-- History lines of `Vulnerable` on shared values: `vname <hex>`, `vheld <name>`,
+    `vrec <name>` change a field (answer `ok`), `vcall` answers the verdict and
+    the CPE the vulnerability's repository holds afterwards (`-` when the name
+    does not unbind). -/
+def histLine (st : HSt) (ws : List String) : Option (HSt × String) :=
+  match ws with
+  | ["vname", h] => do pure ((vOpStep st (.name (← str? h))).1, "ok")
+  | "vheld" :: toks => do pure ((vOpStep st (.held (← wfn? toks))).1, "ok")
+  | "vrec" :: toks => do pure ((vOpStep st (.record (← wfn? toks))).1, "ok")
+  | ["vcall"] =>
+    let r := vOpStep st .call
+    let after := match (vulnCall st.name st.held st.record).2 with
+      | some w => renderWFN w
+      | none => "-"
+    some (r.1, toString (r.2.getD false) ++ " " ++ after)
+  | _ => none
+
+def stepLine (s : HSt) (l : String) : HSt × String :=
+  if l == "reset" then (vInitSt, "ok") else
+  let ws := Driver.words l
+  match histLine s ws with
+  | some (s', o) => (s', o)
+  | none =>
+    match answer ws with
+    | some o => (s, o)
+    | none => (s, "bad-op")
 
 end Driver.C19
 
 def main : IO Unit := do
-  Driver.foldLines (← IO.getStdin) (← IO.getStdout) () Driver.C19.stepLine
+  Driver.foldLines (← IO.getStdin) (← IO.getStdout) ClairModel.Cpe.vInitSt Driver.C19.stepLine
